@@ -47,6 +47,8 @@ func eval(t *testing.T) func(in []*big.Int) ([]*big.Int, []*big.Int) {
 						w.RemoteRemove(r[1], r[2], r[3])
 					case RMetaSync:
 						w.MetaSync(r[1])
+					case RRaceDispose:
+						w.RaceDispose(r[1], r[2])
 					}
 				}
 				w.Stop()
@@ -137,6 +139,10 @@ func genCase(r *hx.Rand, p profile) []*big.Int {
 				continue
 			}
 			rid++
+			if r.Chance(1, 8) {
+				// a balancer pass hits an interface at the very moment it serves this request
+				recs = append(recs, []int{RRaceDispose, 1 + r.Intn(ns), 1 + r.Intn(3)})
+			}
 			pre := r.Intn(100) < p.cancel/2
 			recs = append(recs, []int{RAlloc, rid, pod, -1, b2i(pre)})
 			open = append(open, rid)
